@@ -236,7 +236,8 @@ func runCase(req string) (obs string) {
 	ctx, cancel := context.WithCancel(context.Background())
 	defer cancel()
 	var hs []*hstate
-	var gone []int // handlers that were stopped: their numbers (and names) are not used again
+	var gone []int // handlers that were stopped: their numbers are not used again (their names may be)
+	goneHs := map[int]*hstate{}
 	apps := map[int]*appSub{}
 	// every registration is made from a slice the "application" owns, has spare capacity and keeps (`xs...` passes the
 	// slice itself, not a copy); the X token edits them all afterwards
@@ -496,7 +497,7 @@ func runCase(req string) (obs string) {
 			}
 			hi, err := strconv.Atoi(spec[1 : len(spec)-1])
 			kind := spec[len(spec)-1]
-			if err != nil || (kind != 'p' && kind != 'n') || find(hi) != nil {
+			if err != nil || !strings.ContainsRune("pndez", rune(kind)) || find(hi) != nil {
 				return "bad-op"
 			}
 			for _, g := range gone {
@@ -520,7 +521,7 @@ func runCase(req string) (obs string) {
 					return "bad-op" // AddHandler panics on a duplicate name; not what this harness is about
 				}
 			}
-			h := &hstate{idx: hi, name: name, hasPub: kind == 'p'}
+			h := &hstate{idx: hi, name: name, hasPub: kind != 'n' && kind != 'z'}
 			if shared {
 				// the application wrapped its subscriber itself in a transform decorator and gives that ONE object to
 				// every handler of group g
@@ -551,9 +552,21 @@ func runCase(req string) (obs string) {
 					l.add("h")
 				}
 			}
-			if h.hasPub {
+			if kind == 'z' {
+				// AddHandler with a NIL publisher (and a function that returns nothing): it is not decorated
+				h.h = r.AddHandler(name, "in-"+name, h.obj, "out-"+name, nil, func(msg *message.Message) ([]*message.Message, error) {
+					mark(msg)
+					return nil, nil
+				})
+			} else if h.hasPub {
 				h.h = r.AddHandler(name, "in-"+name, h.obj, "out-"+name, &recPub{l}, func(msg *message.Message) ([]*message.Message, error) {
 					mark(msg)
+					switch kind {
+					case 'd': // two distinct messages with the same UUID
+						return []*message.Message{message.NewMessage("o-"+msg.UUID, []byte("y1")), message.NewMessage("o-"+msg.UUID, []byte("y2"))}, nil
+					case 'e': // three distinct messages without UUID
+						return []*message.Message{message.NewMessage("", []byte("y1")), message.NewMessage("", []byte("y2")), message.NewMessage("", []byte("y3"))}, nil
+					}
 					return []*message.Message{message.NewMessage("o-"+msg.UUID, []byte("y"))}, nil
 				})
 			} else {
@@ -566,6 +579,11 @@ func runCase(req string) (obs string) {
 		case strings.HasPrefix(t, "T"):
 			// handler.Stop(), wait until it has stopped (it is removed from the router then)
 			hi, err := strconv.Atoi(t[1:])
+			if old, ok := goneHs[hi]; ok && err == nil {
+				// Stop() once more through the handle of a handler that has already stopped
+				old.h.Stop()
+				break
+			}
 			h := find(hi)
 			if err != nil || h == nil {
 				return "bad-op"
@@ -599,6 +617,7 @@ func runCase(req string) (obs string) {
 				}
 			}
 			gone = append(gone, hi)
+			goneHs[hi] = h
 		case strings.HasPrefix(t, "P"):
 			failing := strings.HasSuffix(t, "!")
 			is, ok := ids(strings.TrimSuffix(t[1:], "!"))
@@ -772,6 +791,9 @@ func randomProg(rng *wh.Rng, maxLen int) string {
 	}
 	ranOnce := false
 	var startedList []int
+	var freeNames []string
+	var stopAgain []int // Stop() once more, later, through the old handle
+	explicitName := map[int]bool{}
 	plugin := func() string { // a RouterPlugin registering 1..3 things when Run executes it
 		var items []string
 		for k, n := 0, 1+rng.Intn(3); k < n; k++ {
@@ -829,6 +851,7 @@ func randomProg(rng *wh.Rng, maxLen int) string {
 					if !usedNames[cand] && !clash {
 						usedNames[cand] = true
 						name = "=" + wh.HexS(cand)
+						explicitName[h] = true
 						nUnusual++
 					}
 				}
@@ -836,7 +859,12 @@ func randomProg(rng *wh.Rng, maxLen int) string {
 				if sharedSubs && rng.Intn(3) != 0 { // the application-decorated subscriber object 1 (or 2), shared
 					app = "@" + strconv.Itoa(1+rng.Intn(5)/4)
 				}
-				toks = append(toks, "A"+strconv.Itoa(h)+rng.Pick("p", "p", "n")+app+name)
+				if name == "" && len(freeNames) > 0 && rng.Intn(2) == 0 {
+					// the name of a handler that has stopped is used again (only default names are recycled here)
+					name = "=" + wh.HexS(freeNames[0])
+					freeNames = freeNames[1:]
+				}
+				toks = append(toks, "A"+strconv.Itoa(h)+rng.Pick("p", "p", "n", "d", "e", "z")+app+name)
 			case k == 8 && nDecP < 5:
 				c := 1 + rng.Intn(2)
 				if nDecP+c > 5 {
@@ -869,6 +897,10 @@ func randomProg(rng *wh.Rng, maxLen int) string {
 		if editing {
 			toks = append(toks, "X")
 		}
+		for _, h := range stopAgain {
+			toks = append(toks, "T"+strconv.Itoa(h))
+		}
+		stopAgain = nil
 		toks = append(toks, "RUN")
 		ranOnce = true
 		startedList = append([]int{}, addedList...)
@@ -878,6 +910,12 @@ func randomProg(rng *wh.Rng, maxLen int) string {
 			k := rng.Intn(len(startedList))
 			h := startedList[k]
 			toks = append(toks, "T"+strconv.Itoa(h))
+			if !explicitName[h] {
+				freeNames = append(freeNames, "h"+strconv.Itoa(h))
+			}
+			if rng.Intn(3) == 0 {
+				stopAgain = append(stopAgain, h)
+			}
 			for x, y := range addedList {
 				if y == h {
 					addedList = append(addedList[:x:x], addedList[x+1:]...)
@@ -946,9 +984,25 @@ func failAndStopCases(emit func(string, string)) {
 		"A0p H0:1 A1p H1:2 A2p H2:3 RUN T1 A3p H3:4 R5 RUN T0 A4n H4:6 RUN",
 		"R1 A0n A1n H1:2,3 RUN T0 A2p RUN H2:4 A3p H3:5 RUN",
 		"A0p@1 A1p@1 H1:1 S2 RUN T0 A2p@1 H2:3 RUN",
+		// the name of a stopped handler used again; Stop() once more through the old handle
+		"R1 A0p H0:2 A1n H1:3 RUN T0 A2n=" + wh.HexS("h0") + " H2:4 T0 RUN",
+		"A0p A1p H1:1 RUN T0 A2p=" + wh.HexS("h0") + " H2:2,3 T0 RUN T0 A3n H3:4 RUN",
+		"A0n=- A1p RUN T0 T0 A2p=- H2:1 R2 T0 RUN",
 	}
 	for _, p := range progs {
 		emit("chain "+p, "failing_decorator_or_stopped_handler")
+	}
+}
+
+// handler functions that return several DISTINCT messages with equal or empty UUIDs in one go: every publisher decorator
+// (watermill's transform decorator for even ids, a hand-written one for odd ids) acts on every one of them
+func multiOutputCases(emit func(string, string)) {
+	progs := []string{
+		"P2 A0z RUN", "P1,2 S3 R4 A0z A1p H0:5 RUN", "P2 A0d RUN", "P2 A0e RUN", "P1 A0d RUN", "P1,2,3,4 A0d A1e A2p A3n RUN",
+		"P2 A0p RUN P4 A1d RUN P6 A2e RUN", "GP2+P4 A0e A1d RUN", "P2,4 S1 R3 A0d H0:5 X RUN",
+	}
+	for _, p := range progs {
+		emit("chain "+p, "several_outputs_with_equal_uuids")
 	}
 }
 
@@ -1070,6 +1124,7 @@ func main() {
 	pluginCases(emit)
 	callerEditCases(emit)
 	failAndStopCases(emit)
+	multiOutputCases(emit)
 	rng := wh.NewRng(a.Seed)
 	for i := 0; i < nRandom; i++ {
 		l := randLen
@@ -1120,7 +1175,7 @@ func main() {
 					spec = sp
 					out.Count("handlers.shared_decorated_subscriber")
 				}
-				out.Count("ops.addHandler" + spec[len(spec)-1:])
+				out.Count("ops.addHandler" + spec[len(spec)-1:]) // p n | d e: several outputs with equal / empty UUIDs | z: nil publisher
 				if named {
 					out.Count("handlers.explicit_name")
 					if nm == "-" {
